@@ -2,26 +2,24 @@
    statements; proofs live in Proofs/BrandesOk.v.  Repeated in coq/pins/C05.v
    and re-checked on every run.
 
-   The full statement
-     forall g (adjacency with positive costs), bc_core lw weighted g = Some bet ->
+   HOP-COUNT MODE IS PROVED IN FULL, for every graph (C05_brandes_hop_count,
+   C05_model_hop_count): the vector computed by the transcribed BFS stage, the accumulation
+   over all sources (serial or rayon path) and the rescaling equals [bc_def] — the sum over
+   ordered pairs (s,t), s <> v <> t, of the fraction of the shortest s-t paths (brute-force
+   enumeration of simple paths, those of minimal length) that pass through v, halved when
+   undirected and raw, divided by (n-1)(n-2) when normalized and n > 2.  Hypotheses: the
+   adjacency read by the algorithm has indexes in range (checked by the model itself) and
+   lists each neighbour once per row (the shape of successors_vec; checked per case,
+   observation 53, and sound by C05_rows_check_sound).
+   WEIGHTED MODE (heap stage with the sigma-doubling quirk): the statement
+     forall g (positive costs), bc_core lw true g = Some bet ->
        Forall2 Qeq (rescale bet n normalized directed) (bc_def g normalized directed)
-   (Brandes' theorem for the transcribed BFS / Dijkstra stage + accumulation) is NOT
-   proved here.  It is validated per generated graph: the Run module evaluates both
-   sides in exact rational arithmetic and emits their equality as observation kind 52,
-   [bc_def_tab] being the definition by C05_def_executed_form.  What is proved for all
-   graphs: the facts about the definition named in the property text, the rescaling
-   rules, the source exclusion of the accumulation step, one entry per node, that the
-   rayon path computes the same vector as the serial path, and (hop-count mode, by loop
-   invariant) the whole single-source stage: D = hop distances, S = the reachable nodes
-   in non-decreasing distance, P[w] = the shortest-path predecessors, sigma = the path
-   count recurrence, fuel never exhausted; and that the accumulation adds the solution of
-   Brandes' dependency recurrence over that P and sigma (C05_bfs_source_contribution_partial).
-   MISSING for the full hop-count statement: Brandes' lemma itself, i.e. that the solution of
-   the recurrence equals  sum over t of  #{p in SP s t | v in p} / #SP s t  for the path
-   enumeration of [bc_def]; and the weighted (heap) stage. *)
+   is NOT proved; it is validated per generated graph inside Coq in exact rationals
+   (observation 52; [bc_def_tab] is the definition by C05_def_executed_form), and the heap's
+   tie choice is checked to be unobservable per case (observation 51). *)
 From Coq Require Import String List Bool ZArith Arith QArith.
 From GV Require Import Base.Outcome Base.AMap Model.GState Model.Query Model.Cent Model.Brandes.
-From GV Require Import Spec.BetweennessDef Spec.ClosenessDef Proofs.BrandesOk Proofs.BrandesAccOk Proofs.ClosenessBfsOk Proofs.BrandesBfsOk.
+From GV Require Import Spec.BetweennessDef Spec.ClosenessDef Proofs.BrandesOk Proofs.BrandesAccOk Proofs.ClosenessBfsOk Proofs.BrandesBfsOk Proofs.PathsOk Proofs.BrandesLemma Proofs.BrandesLemma2 Proofs.BrandesFull.
 Import ListNotations.
 
 (* ---- the definition ---- *)
@@ -144,3 +142,42 @@ Proof. intros g src s H1 H2 H3 H4. exact (stage_accumulate g src H1 H2 H3 s H4).
 Theorem C05_rows_check_sound : forall g : qadj,
   rows_nodup g = true -> forall v, NoDup (map fst (get [] g v)).
 Proof. exact rows_nodup_sound. Qed.
+
+(* ---- hop-count mode, in full ---- *)
+
+(* the enumeration behind the definition is exact: SP s t is, without repetition, the set of
+   simple s-t paths with the minimal number of edges *)
+Theorem C05_def_shortest_paths_exact : forall (g : qadj),
+  adj_ok (length g) g = true -> (forall v, NoDup (map fst (get [] g v))) ->
+  (forall v a, In a (get [] g v) -> snd a = 1) ->
+  forall s t k, (s < length g)%nat ->
+  (exists p0, path_from_to g p0 s t /\ NoDup p0 /\ length p0 = S k) ->
+  (forall p, path_from_to g p s t -> (S k <= length p)%nat) ->
+  NoDup (spec_sp g s t) /\
+  forall p, In p (spec_sp g s t) <-> path_from_to g p s t /\ NoDup p /\ length p = S k.
+Proof. exact spec_sp_char. Qed.
+
+(* what one source adds to every node: exactly its row of the definition's double sum *)
+Theorem C05_source_contribution : forall (g : qadj) (src : nat),
+  adj_ok (length g) g = true -> (src < length g)%nat -> (forall v, NoDup (map fst (get [] g v))) ->
+  (forall v a, In a (get [] g v) -> snd a = 1) ->
+  forall s, bbfs g src = Some s ->
+  forall bet, length bet = length g -> forall v,
+  get 0 (accumulate src (qS s) (qP s) (qsig s) bet) v ==
+  get 0 bet v + Qsum (map (fun t => pair_term g v src t) (seq 0 (length g))).
+Proof. exact source_contribution. Qed.
+
+Theorem C05_brandes_hop_count : forall (g : qadj),
+  adj_ok (length g) g = true -> (forall v, NoDup (map fst (get [] g v))) ->
+  (forall v a, In a (get [] g v) -> snd a = 1) ->
+  forall lw bet normalized directed,
+  bc_core lw false g = Some bet ->
+  Forall2 Qeq (rescale bet (length g) normalized directed) (bc_def g normalized directed).
+Proof. exact brandes_hop_count. Qed.
+
+Theorem C05_model_hop_count : forall (T A : Type) lw (gs : gstate T A) normalized m,
+  betweenness_centrality lw gs false normalized = Ok m ->
+  exists a, conv_adj false (successors_vec gs) = Some a /\
+    (rows_nodup a = true ->
+     Forall2 Qeq (map snd m) (bc_def a normalized (directed (sp gs)))).
+Proof. intros T A. exact (@model_hop_count T A). Qed.
